@@ -123,7 +123,8 @@ type Run struct {
 	Steps  int
 
 	// map iteration policy
-	MapMode  int // 0 canonical (all sorted), 1 all sites perturbed, 2 random subset, 3 single site
+	MapMode  int // 0 canonical (all sorted), 1 all sites perturbed, 2 random subset, 3 single site, 4 forced (ForceMap)
+	ForceMap map[string]int // mode 4: site -> policy, every other site sorted
 	mapSites map[string]*mapSite
 	mapOnly  int // for mode 3: index of the (lazily numbered) site to perturb
 	// forced policies (replay / minimisation): site -> policy string
